@@ -30,7 +30,7 @@ def _init(modname, tier, seed):
 
 def _run(shard):
     # wall-clock alarm is only a backstop: it makes the run fail as *broken*, never a verdict
-    limit = int(os.environ.get("VMC_SHARD_TIMEOUT", "1500"))
+    limit = int(os.environ.get("VMC_SHARD_TIMEOUT", "1500" if _TIER != "thorough" else "9000"))
     signal.signal(signal.SIGALRM, _alarm)
     signal.alarm(limit)
     try:
